@@ -2,6 +2,7 @@
 package lib
 
 import (
+	"context"
 	"fmt"
 	"reflect"
 
@@ -179,3 +180,19 @@ func Pattern(kind string, n int, k int) []byte {
 	}
 	return b
 }
+
+// SafeDo calls do and turns a panic inside the library into an error (the checks report it as the violation it is
+// instead of dying with it).
+func SafeDo(do func(context.Context, packet.Request) (packet.Response, error), ctx context.Context, q packet.Request) (resp packet.Response, err error) {
+	defer func() {
+		if rec := recover(); rec != nil {
+			resp, err = nil, &PanicError{Value: fmt.Sprint(rec)}
+		}
+	}()
+	return do(ctx, q)
+}
+
+// PanicError is what SafeDo returns when the call panicked.
+type PanicError struct{ Value string }
+
+func (p *PanicError) Error() string { return "PANIC inside the request call: " + p.Value }
